@@ -8,8 +8,6 @@ from props import c01
 
 ID = "C02"
 PROP_FILE = "Props/C02.v"
-THEOREMS = ["C02_preferred_in_spellings", "C02_roundtrip_display", "C02_roundtrip_as_ref", "C02_roundtrip_into_static",
-            "C02_roundtrip_to_string", "C02_serializations", "C02_nonvacuous"]
 RULE = ("definitions: C01's regression + systematic + seeded random enums without prefix, NonOverlap by the model's predicate, "
         "deriving EnumString together with Display (or the deprecated ToString), AsRefStr, IntoStaticStr and EnumMessage, under all "
         "16 accepted serialize_all strings; for every enabled, non-default, non-transparent variant two values (default payload and "
